@@ -79,8 +79,10 @@ def run(tier, seed):
         by_obs.setdefault(t["obs"], []).append(parsed[t["id"]])
     for j, o in enumerate(obs):
         op = ops[o["id"]]
-        v.case(json.dumps([o["mode"], op["op"], op["b"], op["c"]])[:3000])
+        v.case(json.dumps([o["mode"], o.get("offer"), op["op"], op["b"], op["c"]])[:3000])
         case = {"operation": op["op"], "mode": o["mode"], "args": E.short([op["b"], op["c"]], 300)}
+        if o.get("offer"):
+            case["distribution_header_capability_offered_by"] = o["offer"]
         if o["mode"].startswith("refused:"):
             if o["connect_ok"]:
                 raise lib.ToolError("the scripted refusal of the handshake was accepted by the connection")
@@ -102,6 +104,11 @@ def run(tier, seed):
                 v.violation(f"the operation wrote {len(frames)} frames instead of exactly one", case)
             continue
         f = frames[0]
+        raw = o["frames"][0]
+        in_mode = (raw[:1] == [112]) if o["mode"] == "pass_through" else (raw[:2] == [131, 68])
+        if not in_mode:
+            v.violation("the frame is not in the framing mode that was negotiated (pass-through unless both sides offered the distribution header)", {**case, "frame_head": raw[:12]})
+            continue
         if not f["ok"]:
             v.violation("the frame is not readable by an independent implementation of the protocol in the negotiated framing mode", {**case, "frame": o["frames"][0][:120]})
             continue
